@@ -90,6 +90,12 @@ async fn run(case: &Case, rep: &mut CaseReport) -> Option<(String, String)> {
     let mut ever_named: HashMap<SocketAddr, std::collections::HashSet<usize>> = HashMap::new();
     let mut prev = s.d.local_enr();
     let mut updates = 0u64;
+    // is the ledger exact? A PONG is certainly counted by the node only if its sender is a connected
+    // outgoing table member at that moment; PONGs of other senders may be ignored while an earlier
+    // vote of theirs stays in place, so after such a PONG only an upper bound of the counts is known.
+    let mut exact = true;
+    let mut failed: std::collections::HashSet<usize> = std::collections::HashSet::new();
+    let mut named: HashMap<SocketAddr, std::collections::HashSet<usize>> = HashMap::new();
     let mut vote_changed = false;
     for step in &case.steps {
         let mut input_is_pong = false;
@@ -104,6 +110,10 @@ async fn run(case: &Case, rep: &mut CaseReport) -> Option<(String, String)> {
                     }
                 }
                 ever_named.entry(a).or_default().insert(v);
+                named.entry(a).or_default().insert(v);
+                if v >= case.first_incoming as usize || failed.contains(&v) {
+                    exact = false;
+                }
                 input_is_pong = true;
                 let port = std::num::NonZeroU16::new(a.port()).unwrap();
                 s.inject(HandlerOut::Response(
@@ -119,6 +129,7 @@ async fn run(case: &Case, rep: &mut CaseReport) -> Option<(String, String)> {
             Step::Fail { voter } => {
                 let v = *voter as usize % nv;
                 let Some((id, _)) = outstanding.remove(&v) else { continue };
+                failed.insert(v);
                 s.inject(HandlerOut::RequestFailed(id, discv5::RequestError::Timeout)).await;
             }
         }
@@ -152,14 +163,15 @@ async fn run(case: &Case, rep: &mut CaseReport) -> Option<(String, String)> {
                 return Some(("address/changed-without-pong".into(), format!("local {fam} socket became {x} after {step:?}")));
             }
             let count = |a: &SocketAddr| votes.values().filter(|v| *v == a).count();
-            let cx = count(&x);
+            // exact ledger: current votes; otherwise the sound upper bound: distinct voters that ever named x
+            let cx = if exact { count(&x) } else { named.get(&x).map(|s| s.len()).unwrap_or(0) };
             if cx < m {
                 return Some((
                     "address/updated-below-minimum".into(),
                     format!("local {fam} socket became {x} with {cx} current vote(s) from distinct peers, minimum {m} (votes {votes:?})"),
                 ));
             }
-            if all_eligible {
+            if all_eligible && exact {
                 for y in votes.values().filter(|y| **y != x && y.is_ipv4() == x.is_ipv4()) {
                     let cy = count(y);
                     if cy >= cx {
@@ -202,6 +214,7 @@ async fn run(case: &Case, rep: &mut CaseReport) -> Option<(String, String)> {
         rep.class("voter-changed-its-vote");
     }
     rep.class(if all_eligible { "all-voters-eligible" } else { "some-incoming-voters" });
+    rep.class(if exact { "ledger-exact-until-the-end" } else { "ledger-upper-bound-only(after a possibly ignored PONG)" });
     rep.count("updates", updates);
     None
 }
